@@ -74,6 +74,23 @@ mod mac_basic__src1;
 mod mac_capture__ser;
 mod mac_nested__exp;
 mod mac_disj__par;
+mod rnd_core_02__par;
+mod rnd_core_05__ser;
+mod rnd_core_07__pari;
+mod rnd_core_10__par;
+mod rnd_core_13__ser;
+mod rnd_core_15__pari;
+mod rnd_core_18__par;
+mod rnd_core_21__ser;
+mod rnd_core_23__pari;
+mod rnd_core_26__par;
+mod rnd_core_29__ser;
+mod rnd_agg_01__pari;
+mod rnd_agg_04__par;
+mod rnd_agg_07__ser;
+mod rnd_agg_09__pari;
+mod rnd_agg_12__par;
+mod rnd_agg_15__ser;
 
 fn lookup(name: &str) -> fn() -> Box<dyn Driven> {
    match name {
@@ -143,6 +160,23 @@ fn lookup(name: &str) -> fn() -> Box<dyn Driven> {
       "mac_capture__ser" => mac_capture__ser::make,
       "mac_nested__exp" => mac_nested__exp::make,
       "mac_disj__par" => mac_disj__par::make,
+      "rnd_core_02__par" => rnd_core_02__par::make,
+      "rnd_core_05__ser" => rnd_core_05__ser::make,
+      "rnd_core_07__pari" => rnd_core_07__pari::make,
+      "rnd_core_10__par" => rnd_core_10__par::make,
+      "rnd_core_13__ser" => rnd_core_13__ser::make,
+      "rnd_core_15__pari" => rnd_core_15__pari::make,
+      "rnd_core_18__par" => rnd_core_18__par::make,
+      "rnd_core_21__ser" => rnd_core_21__ser::make,
+      "rnd_core_23__pari" => rnd_core_23__pari::make,
+      "rnd_core_26__par" => rnd_core_26__par::make,
+      "rnd_core_29__ser" => rnd_core_29__ser::make,
+      "rnd_agg_01__pari" => rnd_agg_01__pari::make,
+      "rnd_agg_04__par" => rnd_agg_04__par::make,
+      "rnd_agg_07__ser" => rnd_agg_07__ser::make,
+      "rnd_agg_09__pari" => rnd_agg_09__pari::make,
+      "rnd_agg_12__par" => rnd_agg_12__par::make,
+      "rnd_agg_15__ser" => rnd_agg_15__ser::make,
       _ => panic!("no such program variant in this shard: {}", name),
    }
 }
